@@ -121,8 +121,11 @@ def sign_verify_round(ctx, F, b, curves, rng, want_dh):
         if f1["rc"] != "0" or f2["rc"] != "0":
             # the random number may legitimately stand for 0 only with negligible probability
             F.add("ecdsa_key_gen_be:fails-for-valid-input", "build %s\ncase %s\n%s" % (b.name, lines[2 * i], a1), {"case": lines[2 * i], "build": b.name}); continue
-        priv = bytes.fromhex(f1["priv"]); comp = bytes.fromhex(f1["x"]); qx = bytes.fromhex(f2["x"]); qy = bytes.fromhex(f2["y"])
-        if f2["priv"] != f1["priv"] or comp[1:] != qx or comp[0] != 2 + (qy[-1] & 1):
+        try:
+            priv = bytes.fromhex(f1["priv"]); comp = bytes.fromhex(f1["x"]); qx = bytes.fromhex(f2["x"]); qy = bytes.fromhex(f2["y"])
+        except ValueError:       # e.g. the neutral element came back as the "public key" (no second block)
+            priv = comp = qx = b""; qy = b"\x00"
+        if f2["priv"] != f1["priv"] or len(qx) != c.cv.bytes or comp[1:] != qx or comp[0] != 2 + (qy[-1] & 1):
             F.add("ecdsa_key_gen_be:forms-disagree", "build %s\ncase %s\n%s\n%s" % (b.name, lines[2 * i], a1, a2), {"case": lines[2 * i], "build": b.name}); continue
         c.priv = ordv(c, priv); c.qx = ordv(c, qx); c.qy = ordv(c, qy); c.comp = comp[:1] + c.qx; c.packed = b"\x04" + c.qx + c.qy
         live.append(c)
